@@ -283,7 +283,11 @@ func (c *Ctx) Finish() {
 	defer c.mu.Unlock()
 	root := Root()
 	_ = os.MkdirAll(filepath.Join(root, "evidence"), 0o755)
-	_ = os.MkdirAll(filepath.Join(root, "replays"), 0o755)
+	replayDir := filepath.Join(root, "replays")
+	if d := os.Getenv("VERIF_REPLAY_DIR"); d != "" {
+		replayDir = d // trials against scratch copies keep their witnesses out of /verif/replays
+	}
+	_ = os.MkdirAll(replayDir, 0o755)
 
 	keys := make([]string, 0, len(c.knownSeen))
 	for k := range c.knownSeen {
@@ -296,7 +300,7 @@ func (c *Ctx) Finish() {
 
 	var replayPaths []string
 	for i, v := range c.viol {
-		p := filepath.Join(root, "replays", fmt.Sprintf("%s-%s-seed%d-%d.json", c.ID, c.Tier, c.Seed, i))
+		p := filepath.Join(replayDir, fmt.Sprintf("%s-%s-seed%d-%d.json", c.ID, c.Tier, c.Seed, i))
 		b, _ := json.MarshalIndent(map[string]any{
 			"property": c.ID, "tier": c.Tier, "seed": c.Seed, "case": v.Case,
 			"key": v.Key, "what": v.What, "witness": v.Witness,
